@@ -40,7 +40,9 @@ func Listen(network, address string) (net.Listener, error) {
 	return net.Listen(network, address)
 }
 
-func SplitHostPort(hostport string) (host, port string, err error) { return net.SplitHostPort(hostport) }
+func SplitHostPort(hostport string) (host, port string, err error) {
+	return net.SplitHostPort(hostport)
+}
 
 // MemListener is an in-memory net.Listener: Accept receives from a channel, Dial hands over one
 // end of a net.Pipe.  After Close every Dial is refused (a closed TCP listener refuses new
